@@ -670,6 +670,22 @@ def lua_timed_stage(ck, n):
     if gvh is None:
         return 0
     cases = [lua_timed_case(ck.rng) for _ in range(n)]
+    # promptness (C07_child_clock_read_at_first_request / C07_clock_read_every_10000_ticks): once the clock is past the
+    # limit of a nested context, that context does not get through more than a few times 10000 ticks of work, however
+    # much CPU its parent had used before it started
+    for k in range(max(4, n // 20)):
+        pre = ck.rng.choice([0, 5000, 60000, 300000])
+        K2 = ck.rng.choice([10, 50, 200])
+        kind = ck.rng.choice(["{kill={millis=%d}}" % K2, "{kill={millis=%d,cpu=100000000}}" % K2])
+        src = ("local function work(n) local s=0 for i=1,n do s=s+i end return s end\n"
+               "emit('top-before', runtime.context().status, runtime.context().kill.millis or 0)\n"
+               "local oc=runtime.callcontext({kill={millis=1000000}},function() emit('o-start') work(%d) setclock(500) "
+               "local ic=runtime.callcontext(%s,function() emit('i-start') setclock(%d) work(40000) emit('i-end') end) emit('inner-ret', ic.status) "
+               "emit('prompt', ic.status) emit('o-end') end)\n"
+               "emit('outer', oc.status, oc.kill.millis or 0)\n"
+               "emit('top-after', runtime.context().status, runtime.context().kill.millis or 0)\n"
+               "work(20000) emit('top-end', runtime.context().status)" % (pre, kind, 500 + K2 + 1))
+        cases.append((src, {"family": "prompt", "parent_work": pre, "inner_millis": K2}))
     outs = vlib.run_lines_resilient(gvh, ["lua"], ["Z%d %s" % (i, src.encode().hex()) for i, (src, _) in enumerate(cases)], per_case_timeout=30)
     nviol = 0
     stats = {"outer_killed": 0, "outer_done": 0, "inner_killed": 0}
@@ -701,6 +717,9 @@ def lua_timed_stage(ck, n):
                     ist = tags["inner-ret"][1]
                     if ist == "killed":
                         stats["inner_killed"] += 1
+                    if meta.get("family") == "prompt" and ist != "killed":
+                        fails.append("a nested context with a %d ms limit did 40000 loop iterations after the clock had passed its limit "
+                                     "and ended %s (its parent had done %d iterations before)" % (meta["inner_millis"], ist, meta["parent_work"]))
                     if (ist == "done") != ("i-end" in tags):
                         fails.append("inner context reports %s but its body %s its end" % (ist, "reached" if "i-end" in tags else "did not reach"))
         if fails:
